@@ -28,6 +28,10 @@ STATE = {'new': 0, 'live': 1, 'expired': 2, 'missing': 3}
 MODES = ['implicit', 'early', 'explicit']
 OUTCOMES = ['ok', 'httperror', 'redirect', 'exception', 'stream_done', 'stream_abandoned', 'regenerate',
             'body_error', 'internal_redirect']
+# the streamed body raises after its first chunk (the server re-raises and calls close()): same lock
+# bookkeeping as an abandoned stream - the deferred save and the release happen in on_end_request
+MODEL_OUTCOME = {'stream_raises': 'stream_abandoned'}
+ALL_OUTCOMES = OUTCOMES + ['stream_raises']
 POINTS = {'before_request_body': 1, 'before_handler': 2, 'before_finalize': 3, 'on_end_resource': 4,
           'on_end_request': 5}
 
@@ -261,7 +265,7 @@ class C13(core.Check):
         out = []
         for backend in ('ram', 'file'):
             for mode in MODES:
-                for oc in OUTCOMES:
+                for oc in ALL_OUTCOMES:
                     for fe in (0, 1):
                         for fs in ((0, 1) if backend == 'file' else (0,)):
                             for ff in (0, 1):
@@ -377,11 +381,13 @@ class C13(core.Check):
                     raise ValueError('handler fails')
                 if oc == 'internal_redirect':
                     raise cherrypy.InternalRedirect('/other')
-                if oc in ('stream_done', 'stream_abandoned'):
+                if oc in ('stream_done', 'stream_abandoned', 'stream_raises'):
                     cherrypy.response.stream = True
 
                     def gen():
                         yield b'chunk1 '
+                        if oc == 'stream_raises':
+                            raise ValueError('the body generator fails after its first chunk')
                         yield b'chunk2 '
                         yield b'chunk3'
                     return gen()
@@ -548,7 +554,7 @@ class C13(core.Check):
     # ------------------------------------------------------------------ model side
     def encode(self, c):
         if c['sys'] == 'seq':
-            return [1, MODES.index(c['mode']), OUTCOMES.index(c['outcome'])] + list(c['faults'])
+            return [1, MODES.index(c['mode']), OUTCOMES.index(MODEL_OUTCOME.get(c['outcome'], c['outcome']))] + list(c['faults'])
         return [0, 1 if model_fixed() else 0, STATE[c['state']], c['n0'], c['prelock'], list(c['kinds']), c['sweeps'],
                 list(c['sched'])]
 
